@@ -16,9 +16,11 @@ CONSTANTS
   CounterFirst = TRUE
   FreshPipe = TRUE
   ResetClosed = TRUE
+  BlockAfterClose = TRUE
 INVARIANT TypeOK
 INVARIANT Inv_C05_Stream
 INVARIANT Inv_C05_Count
 INVARIANT Inv_C05_Closed
 INVARIANT Inv_C05_Call
+INVARIANT Inv_C05_End
 CHECK_DEADLOCK FALSE
